@@ -561,7 +561,16 @@ func (v *Verifier) genReplayTest(o *Obligation, con *Contract, fn *ssa.Function)
 	}
 	body.WriteString("\tpanicked := false\n\tfunc() {\n\t\tdefer func() {\n\t\t\tif e := recover(); e != nil {\n\t\t\t\tpanicked = true\n\t\t\t\tfmt.Printf(\"GOVC-REPLAY: panic: %v\\n\", e)\n\t\t\t}\n\t\t}()\n")
 	body.WriteString("\t\t" + assign + callee + "(" + strings.Join(args, ", ") + ")\n\t}()\n")
-	body.WriteString("\tif panicked {\n\t\tfmt.Println(\"GOVC-REPLAY: confirmed (the real code panics on the model's input)\")\n\t\treturn\n\t}\n")
+	switch o.Kind {
+	case "index", "slice", "nil", "nilmap", "div", "makeslice", "append", "panic":
+		// a safety obligation: a panic of the real code on an input that satisfies the executable part of the
+		// precondition is the failure itself
+		body.WriteString("\tif panicked {\n\t\tfmt.Println(\"GOVC-REPLAY: confirmed (the real code panics on the model's input)\")\n\t\treturn\n\t}\n")
+	default:
+		// a functional clause: a panic says nothing about it (ghost preconditions cannot be evaluated, the input may
+		// simply be outside them)
+		body.WriteString("\tif panicked {\n\t\tfmt.Println(\"GOVC-REPLAY: not-reproduced (the real code panics on this input; the clause could not be evaluated)\")\n\t\treturn\n\t}\n")
+	}
 	if clauseGo != "" {
 		body.WriteString("\tif !govcTry(func() bool { return " + clauseGo + " }) {\n\t\tfmt.Println(\"GOVC-REPLAY: confirmed (the real code violates the clause on the model's input)\")\n\t\treturn\n\t}\n")
 	}
